@@ -177,6 +177,9 @@ func rulesC09(c *Ctx) {
 	ruleC09Fanout(c, cg, sum)
 	ruleC09TwoWay(c, impls)
 	ruleC09Recheck(c, impls)
+	// the checks decide presence of nil-valued entries through TypedBucket.IsKeyPresent
+	ruleKeyPresence(c, "C09.PRESENCE")
+	ruleC09FanoutAlways(c)
 	ruleC09Phases(c, cg, impls)
 	ruleReseek(c, "C09.RESEEK", c.prodFuncs("boltz"))
 }
@@ -714,4 +717,44 @@ func ruleC09Recheck(c *Ctx, impls []checkIntegrityImpl) {
 		}
 	}
 	c.Floor("C09.RECHECK", 3)
+}
+
+// ruleC09FanoutAlways: BaseStore.CheckIntegrity reaches a successful return only after it has entered
+// both fan-out loops (link collections and constraints): a store without entities can still hold stale
+// index entries, so no shortcut may skip them.
+func ruleC09FanoutAlways(c *Ctx) {
+	p := c.P
+	fn := p.SSAFunc(p.Method("boltz", "BaseStore", "CheckIntegrity"))
+	name := FnName(fn)
+	c.Analysed(name)
+	loops := loopsOf(fn)
+	var fanLoops []*Loop
+	for _, call := range callsIn(fn) {
+		if call.Common().IsInvoke() && call.Common().Method.Name() == "CheckIntegrity" {
+			if l := innermostLoop(loops, call.Block()); l != nil {
+				dup := false
+				for _, x := range fanLoops {
+					if x == l {
+						dup = true
+					}
+				}
+				if !dup {
+					fanLoops = append(fanLoops, l)
+				}
+			}
+		}
+	}
+	ok := len(fanLoops) >= 2
+	why := fmt.Sprintf("expected the two fan-out loops (link collections, constraints), found %d", len(fanLoops))
+	for _, l := range fanLoops {
+		hdr := l.Header
+		ri := reachWithout(fn, func(in ssa.Instruction) bool { return in.Block() == hdr })
+		for _, r := range returnsOf(fn) {
+			if ri.ReachesSuccess(r, 0) {
+				ok = false
+				why = "a successful return at " + p.Pos(r.Pos()) + " is reachable without entering the fan-out loop at " + p.Pos(lastPos(hdr)) + ": stale index entries of that store go unreported"
+			}
+		}
+	}
+	c.Check(ok, "C09.FANOUT", name+": no shortcut around the fan-out", p.Pos(fn.Pos()), "every successful return has entered both fan-out loops", why)
 }
